@@ -230,7 +230,11 @@ func (b *DirectoryBackend) osPath(path string) (string, error) {
 	fullPath := filepath.Join(b.root, pathSeparators.Replace(path))
 	// This is conservative check that "fullPath" is child of "b.root",
 	// catching any funny "../../../.." that we might accidentally get.
-	if fullPath != filepath.Clean(fullPath) {
+	// filepath.Join() has already resolved all ".." components (so comparing
+	// "fullPath" with its cleaned form can never fail); what matters is where
+	// the result points to relative to the root.
+	relPath, err := filepath.Rel(b.root, fullPath)
+	if err != nil || relPath == "." || relPath == ".." || strings.HasPrefix(relPath, ".."+string(os.PathSeparator)) {
 		b.log.WithField("path", path).Warn("invalid key path used")
 		return "", api.ErrInvalidPath
 	}
